@@ -383,13 +383,15 @@ pub fn run(ctx: &mut Ctx) {
     let max_ops = ctx.tier_pick(20_000u64, 150_000);
     // larger nominal sizes, one per shard: enough operations for a few rebuilds (table indices beyond 16 bits)
     {
-        let lg_k = if ctx.quick() { 13 + (ctx.shard % 3) as u64 } else { 13 + (ctx.shard % 8) as u64 };
+        // (the adversarial lane makes whole probe sequences collide: its cost grows with the square of the table, so
+        // the large tables get the public lane and a bounded number of operations)
+        let lg_k = if ctx.quick() { 13 + (ctx.shard % 3) as u64 } else { 13 + (ctx.shard % 6) as u64 };
         let case = Json::obj()
-            .set("lane", if ctx.shard % 2 == 0 { "public" } else { "adversarial" })
+            .set("lane", if ctx.shard % 2 == 0 || lg_k >= 16 { "public" } else { "adversarial" })
             .set("lg_k", lg_k)
             .set("rf", (ctx.shard / 4) as u64 % 4)
             .set("p", if ctx.shard % 3 == 2 { 0.5 } else { 1.0 })
-            .set("n_ops", (1u64 << lg_k) * ctx.tier_pick(5, 4))
+            .set("n_ops", ((1u64 << lg_k) * ctx.tier_pick(5, 4)).min(600_000))
             .set("seed", ctx.case_seed("theta-big", lg_k));
         run_case(ctx, &case);
     }
